@@ -82,6 +82,11 @@ func (r *Registry) Add(soyfile *ast.SoyFileNode) error {
 		tn.Body.Nodes = tn.Body.Nodes[len(headerParams):]
 
 		r.Templates = append(r.Templates, Template{sdn, tn, ns})
+		// lookups by name resolve to the first template of that name (see Template):
+		// keep the source and file of that one, so positions are computed against the right text.
+		if _, ok := r.sourceByTemplateName[tn.Name]; ok {
+			continue
+		}
 		r.sourceByTemplateName[tn.Name] = soyfile.Text
 		r.fileByTemplateName[tn.Name] = soyfile.Name
 	}
